@@ -131,7 +131,7 @@ CHECKS["C16"] = {
 CHECKS["C17"] = {
     "text": "The model of trio_log_pmf (constraint vectors min(dosage, parental copies) widened for double reduction, the four valid_p/valid_q branches, the literal set_initial_dosage / increment_dosage enumeration, the closed-form both-invalid term) is proved equal to the inheritance distribution: sum over all gamete pairs of (1-e)[(1-lambda) hypergeometric + lambda double-reduction] + e multinomial; it sums to one over all unordered progeny genotypes (gametes likewise) for every ploidy, gamete-size pair (unbalanced, clonal, unknown parent), lambda, error and frequency vector; with zero error it is positive exactly when trio_valid / duo_valid accept. The gamete enumerator is proved sound, strictly lex-decreasing, predecessor-exact and complete for every constraint.",
     "design_ref": "DESIGN.md section 4, C17",
-    "note": _NOTE + "All theorems are about the code-structure model (trioCode_eq_spec, trioCode_sum_one, trioCode_positive_iff_trioValid); hypotheses = the code's own conventions (unknown parent passed with error 1, errors <= 1, lambda >= 0 and only at tau = 2). Not proved: equality of evaluation on allele-count vs first-occurrence slot vectors (tested), duo iff only for one orientation.",
+    "note": _NOTE + "All theorems are about the code-structure model (trioCode_eq_spec, trioCode_sum_one, trioCode_positive_iff_trioValid); hypotheses = the code's own conventions (unknown parent passed with error 1, errors <= 1, lambda >= 0 and only at tau = 2). trioPmf_swap: the probability does not depend on which parent is listed first (hence the duo statement in both orientations). Not proved: equality of evaluation on allele-count vs first-occurrence slot vectors (tested).",
     "technique": "Lean 4 proofs (multivariate Vandermonde via convolution over compositions, lex-predecessor / tightness argument + mixed-radix rank for enumerator completeness, support = constraint, multinomial convolution, pair-sum reindexing) + differential correspondence on enumerated genotype spaces at 1e-9 + sum / zero-iff-invalid oracles",
 }
 CHECKS["C18"] = {
